@@ -116,6 +116,20 @@ const SPECS: &[(&str, &[&str])] = &[
 ];
 
 pub fn gen_scenario(rng: &mut Rng, thorough: bool) -> Scenario {
+    if rng.chance(1, 12) {
+        // long histories: far more accepted results than the population cap, so eviction and (at sample size > 1)
+        // re-evaluation happen; no failures, few rejections
+        let nc = 1 + rng.below(4) as usize;
+        let rounds = 250 + rng.below(if thorough { 3000 } else { 300 }) as usize;
+        let (spec, _) = SPECS[rng.below(SPECS.len() as u64) as usize];
+        return Scenario {
+            nc, max_eval: if rng.chance(1, 2) { None } else { Some(150 + rng.below(300) as usize) },
+            target: None, sample_size: 1 + rng.below(3) as usize, spec_yaml: spec.to_string(), guess: None,
+            script_seed: rng.next(), term_round: None, fail_permille: 0, rej_permille: *rng.pick(&[0, 50, 200]),
+            nonfinite_permille: 0, burst_permille: *rng.pick(&[0, 300]), ignore_abort_permille: *rng.pick(&[0, 1000]),
+            pool: rng.below(5) as u8, max_rounds: rounds,
+        };
+    }
     let nc = 1 + rng.below(8) as usize;
     let nmax = if thorough { 400 } else { 40 };
     let max_eval = match rng.below(10) {
